@@ -337,7 +337,7 @@ def run(chk):
             continue
         tf = os.path.join(chk.work, 'framing_traces_%d.json' % s)
         with open(tf, 'w') as f:
-            json.dump([{k: t[k] for k in ('ends', 'total', 'ev', 'mustLeave')} for t in part], f)
+            json.dump([dict({k: t[k] for k in ('ends', 'total', 'ev', 'mustLeave')}, allDelivered=True) for t in part], f)
         r2 = chk.tlc('Trace_Framing', 'Trace_Framing.cfg', env={'TRACE_FILE': tf}, must_pass=False, workers=4,
                      label='Trace_Framing shard %d' % s)
         if r2.violated:
